@@ -478,8 +478,12 @@ class Sim:
         proceed = self._status_poll(w)
         suc = {'success': True, 'failure': False, 'invalid': None}[ev['outcome']]
         values = None
+        real = bool(ev.get('real')) and getattr(self, 'exec', None) is not None
         if suc:
-            if rel is not None:
+            if rel is not None and real:
+                # the unit really runs: real worker path, real store (C02 end to end)
+                values = self.exec.run_unit(task)
+            elif rel is not None:
                 values = self.make_values(rel, ev.get('new', [True]))
                 for extra in ev.get('extra_values', []):
                     values.append((f'{task.runid}.{extra[0]}.{rel.tag}.{extra[1]}', True))
@@ -491,7 +495,7 @@ class Sim:
             rel.values = values
             rel.state = 'replied' if proceed else 'dropped'
         if proceed:
-            if suc and rel is not None:
+            if suc and rel is not None and not real:
                 self._store(rel, values)
             resp = self.msg.make(
                 typ=self.msg.Type.response,
@@ -520,6 +524,12 @@ class Sim:
         self.nv += 1
         DBI().tables.prime[str((int(runid), 0, 0, 0, 0, self.nv))] = 'x'
         self.stored_runids.add(int(runid))
+
+    def ev_salt(self, ev):
+        '''(end to end) the next run of a root writes never-seen content for these values'''
+        for svn, vn in ev['vals']:
+            k = (ev['tag'], svn, vn, ev['target'])
+            self.exec.salt[k] = self.exec.salt.get(k, 0) + 1
 
     def ev_advance(self, ev):
         self.world.reactor.advance(ev['dt'])
